@@ -10,6 +10,7 @@ CONSTANTS
   FullLevels = {4}
   MedLevels = {}
   TinyLevels = {}
+  AliasLevels = {}
   XOffs = {}
   XLens = {}
   MaxLen = 11
